@@ -161,6 +161,8 @@ pub enum Ev {
     MapEval { id: u32 },
     /// A connection added by the driver through a clone of an output port that it kept.
     ConnectVia { node: usize, port: usize, conn: Conn },
+    /// A connection added to an event source after the bench was built.
+    ConnectSrc { src: usize, conn: Conn },
     Fault { node: usize, kind: PanicKind },
     Blocked(u64),
     TimeRead { node: usize, t: i64 },
@@ -1675,6 +1677,9 @@ pub enum Cmd {
     /// Adds a connection to output port `port` of `node` through a clone of the port kept
     /// by the driver since before `init` (needs `BenchSpec::hold_port_clones`).
     ConnectVia { node: usize, port: usize, conn: Conn },
+    /// Adds a connection to an event source held by the driver (possibly after actions of that
+    /// source were created or scheduled).
+    ConnectSrc { src: usize, conn: Conn },
     DropSim,
 }
 
@@ -1742,6 +1747,12 @@ fn exec_cmd_inner(b: &mut Built, cmd: &Cmd) -> Res {
             let fl = b.flavours.clone();
             connect_out(&mut b.out_clones[*node][*port], &[*conn], &b.addrs, &b.bufs, &b.slots, &fl);
             w.log(Ev::ConnectVia { node: *node, port: *port, conn: *conn });
+            return Res::Ok;
+        }
+        Cmd::ConnectSrc { src, conn } => {
+            let fl = b.flavours.clone();
+            connect_src(&mut b.srcs[*src], &[*conn], &b.addrs, &fl, &w);
+            w.log(Ev::ConnectSrc { src: *src, conn: *conn });
             return Res::Ok;
         }
         Cmd::IntoAuto { slot } => {
